@@ -45,7 +45,7 @@ theorem forget_scope {μ0 μ : Row n} {rel ann must may : List Nat}
 /-- evalFilter (expression without EXISTS) -/
 theorem pushdown_filter {D : Dataset} {g : Graph} {μ0 : Row n} {Ω XP : List (Row n)} {e : Expr}
     {ann must may : List Nat}
-    (hp : XP.Perm (push μ0 Ω)) (hfree : e.existsFree = true)
+    (hp : XP.Perm (push μ0 Ω)) (hok : ExprOK D g n e)
     (hs : scopeOK e.vars ann must may = true) (hb : ∀ μ ∈ Ω, BoundsOK μ must may) :
     (XP.filter fun c => isTrue (Model.evalExpr D g (c.forget μ0 ann) e)).Perm
       (push μ0 (Ω.filter fun μ => isTrue (Spec.evalExpr D g Row.empty μ e))) := by
@@ -59,7 +59,7 @@ theorem pushdown_filter {D : Dataset} {g : Graph} {μ0 : Row n} {Ω XP : List (R
   | false => simp
   | true =>
     have : Model.evalExpr D g ((μ0.merge μ).forget μ0 ann) e = Spec.evalExpr D g Row.empty μ e := by
-      rw [evalExprM_congr e hfree (forget_scope hs (hb μ hμ)), evalExprM_eq_spec e hfree]
+      rw [hok.congr _ _ (forget_scope hs (hb μ hμ)), hok.spec]
     simp only [if_true, Option.filter_some, this]
 
 end RV.C04
@@ -90,7 +90,7 @@ def extendStepS (D : Dataset) (g : Graph) (v : Nat) (e : Expr) (μ : Row n) : Ro
 /-- evalExtend (expression without EXISTS, BIND variable not bound by the inner pattern) -/
 theorem pushdown_extend {D : Dataset} {g : Graph} {μ0 : Row n} {Ω XP : List (Row n)} {e : Expr} {v : Nat}
     {ann must may : List Nat}
-    (hp : XP.Perm (push μ0 Ω)) (hfree : e.existsFree = true)
+    (hp : XP.Perm (push μ0 Ω)) (hok : ExprOK D g n e)
     (hs : scopeOK e.vars ann must may = true) (hb : ∀ μ ∈ Ω, BoundsOK μ must may)
     (hv : v ∉ may) :
     (XP.filterMap (extendStepM D g μ0 v e ann)).Perm (push μ0 (Ω.map (extendStepS D g v e))) := by
@@ -115,7 +115,7 @@ theorem pushdown_extend {D : Dataset} {g : Graph} {μ0 : Row n} {Ω XP : List (R
   | true =>
     have hp1 : pushOne μ0 μ = some (μ0.merge μ) := by simp [pushOne, hc]
     have hev : Model.evalExpr D g ((μ0.merge μ).forget μ0 ann) e = Spec.evalExpr D g Row.empty μ e := by
-      rw [evalExprM_congr e hfree (forget_scope hs (hb μ hμ)), evalExprM_eq_spec e hfree]
+      rw [hok.congr _ _ (forget_scope hs (hb μ hμ)), hok.spec]
     simp only [hp1, Option.bind_some, extendStepM, hev]
     cases he : Spec.evalExpr D g Row.empty μ e with
     | none => simpa using hp1.symm
